@@ -364,6 +364,7 @@ func (b *GRPCBroker) Accept(id uint32) (net.Listener, error) {
 	if b.addrTranslator != nil {
 		advertiseNet, advertiseAddr, err = b.addrTranslator.HostToPlugin(advertiseNet, advertiseAddr)
 		if err != nil {
+			listener.Close()
 			return nil, err
 		}
 	}
@@ -373,11 +374,23 @@ func (b *GRPCBroker) Accept(id uint32) (net.Listener, error) {
 		Address:   advertiseAddr,
 	})
 	if err != nil {
+		// Nobody will ever learn about this listener: do not leave it (and
+		// its Unix socket file) behind.
+		listener.Close()
 		return nil, err
 	}
 
-	// Track the listener until it is closed, so that Close can close it.
+	// Track the listener until it is closed, so that Close can close it. A
+	// broker that was closed in the meantime has already closed the listeners
+	// it knew about, and will not look again.
 	b.Lock()
+	select {
+	case <-b.doneCh:
+		b.Unlock()
+		listener.Close()
+		return nil, errors.New("broker closed")
+	default:
+	}
 	if b.listeners == nil {
 		b.listeners = make(map[net.Listener]struct{})
 	}
